@@ -28,6 +28,8 @@ func symbol(s string) string {
 		return "é"
 	case "U2":
 		return "あ"
+	case "CR":
+		return "\r"
 	}
 	return s
 }
